@@ -203,3 +203,23 @@ N("C19", "output += [...]", NODE, "                output.append(self.value[offs
 N("C19", "slice bound to a temporary", NODE, "            if node_data != self.value[node.start : node.end]:\n", "            covered = self.value[node.start : node.end]\n            if node_data != covered:\n")
 N("C19", "skip test flipped", NODE, "if node.start < offset:", "if offset > node.start:")
 N("C19", "nested if instead of continue", NODE, "            if node.start < offset:\n                continue  # Only take the first of overlapping values\n            node_data = node.flatten()\n            if node_data != self.value[node.start : node.end]:\n", "            node_data = node.flatten()\n            if node.start >= offset and node_data != self.value[node.start : node.end]:\n")
+
+# ------------------------------------------------------------------ C09
+XT = "src/multidecoder/xortool.py"
+NET = D + "network.py"
+B("C09", "sorted(keywords) removed", REG, "partial(find_keywords, file_name, sorted(keywords))", "partial(find_keywords, file_name, keywords)", "R1-order-taint")
+B("C09", "sorted(files) removed", REG, "for file_name in sorted(files):", "for file_name in files:", "R1-order-taint")
+B("C09", "dirs.sort() removed", REG, "        dirs.sort()  # visit sub-directories in a reproducible order\n", "", "R1-order-taint")
+B("C09", "os.listdir replaces the sorted walk", REG, "    for subdir, dirs, files in os.walk(directory):\n        dirs.sort()  # visit sub-directories in a reproducible order\n        for file_name in sorted(files):\n", "    for subdir, files in [(directory, os.listdir(directory))]:\n        for file_name in files:\n", "R1-order-taint")
+B("C09", "module-level memo of a decoder", D + "chr.py", "@decoder\ndef find_chr(data: bytes) -> list[Node]:\n    \"\"\"Find and decode calls to the chr function\"\"\"\n    out = []\n", "_CACHE: dict = {}\n\n\n@decoder\ndef find_chr(data: bytes) -> list[Node]:\n    \"\"\"Find and decode calls to the chr function\"\"\"\n    if data in _CACHE:\n        return _CACHE[data]\n    out = []\n    _CACHE[data] = out\n", "R3-shared-writes")
+B("C09", "self.last_result in scan_node", MD, "        stack: list[Node] = []\n", "        stack: list[Node] = []\n        self.last_scanned = node\n", "R3-shared-writes")
+B("C09", "lru_cache on a decoder helper", D + "network.py", "def is_domain(domain: bytes) -> bool:", "@functools.lru_cache(maxsize=None)\ndef is_domain(domain: bytes) -> bool:", "R3-shared-writes", also=[dict(file=D + "network.py", old="import binascii\n", new="import binascii\nimport functools\n")])
+B("C09", "random tie-break", MD, "        for hit in results:\n", "        random.shuffle(results)\n        for hit in results:\n", "R4-entropy", also=[dict(file=MD, old="from multidecoder.node import Node\n", new="import random\n\nfrom multidecoder.node import Node\n")])
+B("C09", "id() in sort key", MD, "key=lambda t: (t.start, -t.end),", "key=lambda t: (t.start, -t.end, id(t)),", "R")
+B("C09", "stack hoisted to self", MD, "        stack: list[Node] = []\n", "        self.stack = stack = []\n", "R3-shared-writes")
+B("C09", "xortool keys through a set", XT, "    probable_keys = []\n", "    probable_keys = set()\n", "R1-order-taint", also=[dict(file=XT, old="            if key not in probable_keys:\n                probable_keys.append(key)\n\n    return probable_keys, key_char_used", new="            probable_keys.add(key)\n\n    return list(probable_keys), key_char_used")])
+B("C09", "domain false-positive roots iterated", NET, "        or (tld in tld_fpos and (root in root_fpos or len(root) == 1))  # variable attribute\n", "        or (tld in tld_fpos and (root == [r for r in root_fpos if r.startswith(root)][:1] or len(root) == 1))\n", "R1-order-taint")
+B("C09", "mutable default accumulates hits", D + "vba.py", "def find_createobject(data: bytes) -> list[Node]:\n    out = []\n", "def find_createobject(data: bytes, out: list = []) -> list[Node]:\n", "R3-shared-writes")
+N("C09", "sorted set literal", REG, "partial(find_keywords, file_name, sorted(keywords))", "partial(find_keywords, file_name, sorted(set(keywords)))")
+N("C09", "local dict for membership", D + "network.py", "    out = []\n    for match in re.finditer(IP_RE, data):\n", "    out = []\n    seen = set()\n    for match in re.finditer(IP_RE, data):\n        seen.add(match.start())\n")
+N("C09", "len(set()) heuristic", D + "base64.py", "len(set(b64_string)) <= MIN_B64_CHARS", "len({c for c in b64_string}) <= MIN_B64_CHARS")
